@@ -66,11 +66,23 @@ private:
           fs_provider{&fs_provider},
           include_chain{std::move(include_chain)}
     {
-        this->include_chain.push_back(
-            std::filesystem::weakly_canonical(std::filesystem::absolute(path)));
+        this->include_chain.push_back(to_canonical(path));
         const auto file_data = this->fs_provider->read_file(path);
         locations = location_manager{path, file_data};
         parse_xml(file_data);
+    }
+
+    // never throws, invalid paths (e.g. empty one) are reported later when
+    // the file is read
+    static std::filesystem::path to_canonical(const std::string& path)
+    {
+        std::error_code ec;
+        auto res = std::filesystem::weakly_canonical(path, ec);
+        if(ec)
+        {
+            return path;
+        }
+        return res;
     }
 
     ireporter* reporter;
@@ -153,8 +165,7 @@ private:
     void parse_include(const pugi::xml_node root)
     {
         const auto path = get_required_non_empty_string(root, "href");
-        const auto canonical_path = std::filesystem::weakly_canonical(
-            std::filesystem::absolute(path));
+        const auto canonical_path = to_canonical(path);
         if(std::find(
                std::begin(include_chain),
                std::end(include_chain),
